@@ -400,7 +400,7 @@ const PREEMPT_OCC_MAX_THOROUGH: u32 = 2;
 const PREEMPT_POSITIONS_PER_VISIT: usize = 900;
 const PREEMPT_POSITIONS_PER_VISIT_THOROUGH: usize = 2500;
 const PREEMPT_SPLIT: u64 = 2;
-const PREEMPT_EPISODES: u64 = 32;
+const PREEMPT_EPISODES: u64 = 36;
 const PREEMPT_EPISODES_THOROUGH: u64 = 192;
 
 /// Adaptive generator of the runs of one preemption episode (see episode.rs and step.rs): for each of its pairs a
@@ -494,6 +494,7 @@ impl PreemptSweep {
                             core: pair.core,
                             skip_ops: 0,
                             mailboxes: pair.mailboxes,
+                            positions_per_visit: pair.positions_per_visit,
                         };
                         return Some(preempt_run(&head, self.seeds, 0, 0, 0));
                     }
@@ -559,7 +560,11 @@ impl PreemptSweep {
                                 self.positions.push(i as u32 + 1);
                             }
                         }
-                        if self.positions.len() > self.per_visit_max {
+                        let per_visit_max = match self.pairs[self.pos].positions_per_visit {
+                            0 => self.per_visit_max,
+                            n => n.min(self.per_visit_max),
+                        };
+                        if self.positions.len() > per_visit_max {
                             // keep the first occurrence of every address, then thin out evenly
                             let mut first: Vec<u32> = vec![];
                             let mut seen1: BTreeSet<u32> = BTreeSet::new();
@@ -569,9 +574,9 @@ impl PreemptSweep {
                                 }
                             }
                             self.positions = first;
-                            if self.positions.len() > self.per_visit_max {
+                            if self.positions.len() > per_visit_max {
                                 let n = self.positions.len();
-                                let m = self.per_visit_max;
+                                let m = per_visit_max;
                                 self.positions = (0..m).map(|j| self.positions[j * n / m]).collect();
                             }
                         }
@@ -706,12 +711,12 @@ fn mode_worker(args: &[String]) -> i32 {
 
 const COLD_POSITIONS_PER_VISIT: usize = 300;
 
-fn cold_spec(pair: usize, verif_seed: u64, visit: u64, steps: u32, via: u8) -> Option<RunSpec> {
+fn cold_spec(pair: usize, verif_seed: u64, visit: u64, steps: u32, via: u8, intruder_stop: u64) -> Option<RunSpec> {
     let pairs = cold_pairs();
     let p = pairs.get(pair)?;
     let mut rng = Rng::new(derive(verif_seed, &[0x434F4C44, pair as u64]));
     let seeds = (rng.next_u64() | 1, rng.next_u64() | 1);
-    Some(preempt_run_via(p, seeds, visit, steps, 0, via))
+    Some(preempt_run_full(p, seeds, visit, steps, intruder_stop, true, via))
 }
 
 fn mode_cold(args: &[String]) -> i32 {
@@ -727,15 +732,15 @@ fn mode_cold(args: &[String]) -> i32 {
     if has_flag(args, "--trace") {
         // visit 0: only count the visits of the victim
         if visit == 0 {
-            let spec = match cold_spec(pair, verif_seed, 0, 0, 0) {
+            let spec = match cold_spec(pair, verif_seed, 0, 0, 0, 0) {
                 Some(s) => s,
                 None => return 2,
             };
             let res = execute_run(&spec);
-            println!("{}", json!({"visits": res.visits.first().copied().unwrap_or(0)}));
+            println!("{}", json!({"visits": res.visits.first().copied().unwrap_or(0), "intruder_visits": res.visits.get(1).copied().unwrap_or(0)}));
             return 0;
         }
-        let spec = match cold_spec(pair, verif_seed, visit, TRACE_CAPACITY, 2) {
+        let spec = match cold_spec(pair, verif_seed, visit, TRACE_CAPACITY, 2, 0) {
             Some(s) => s,
             None => return 2,
         };
@@ -763,7 +768,8 @@ fn mode_cold(args: &[String]) -> i32 {
         .ok()
         .and_then(|v| v.as_array().map(|a| a.iter().filter_map(|x| x.as_u64().map(|x| x as u32)).collect()))
         .unwrap_or_default();
-    let spec = match cold_spec(pair, verif_seed, visit, position, 1) {
+    let intruder_stop: u64 = arg_value(args, "--intruder-stop").and_then(|s| s.parse().ok()).unwrap_or(0);
+    let spec = match cold_spec(pair, verif_seed, visit, position, 1, intruder_stop) {
         Some(s) => s,
         None => return 2,
     };
@@ -831,12 +837,24 @@ fn cold_sweep(verif_seed: u64, jobs: usize) -> (Value, Option<Value>, Vec<String
         let base = vec!["--verif-seed".to_string(), verif_seed.to_string(), "--pair".to_string(), pair.to_string()];
         let mut a = base.clone();
         a.extend(["--trace".to_string(), "--visit".to_string(), "0".to_string()]);
-        let visits = match run_cold_process(&a, None, 120) {
-            Ok(v) => v["visits"].as_u64().unwrap_or(0),
+        let (visits, intruder_visits) = match run_cold_process(&a, None, 120) {
+            Ok(v) => (v["visits"].as_u64().unwrap_or(0), v["intruder_visits"].as_u64().unwrap_or(0)),
             Err(e) => {
                 errors.lock().unwrap().push(e);
                 continue;
             }
+        };
+        // where the intruder hands the baton back: not at all (it runs to its end in the gap), or at four evenly spaced ones of
+        // its own visits (the victim then finishes first and the intruder sees what the victim did meanwhile)
+        let stops: Vec<u64> = {
+            let mut v = vec![0u64];
+            for q in 1..=4u64 {
+                let j = intruder_visits * q / 5;
+                if j >= 2 && !v.contains(&j) {
+                    v.push(j);
+                }
+            }
+            v
         };
         // traces, in parallel
         let traces: Arc<Mutex<BTreeMap<u64, (Vec<u32>, usize, usize)>>> = Arc::new(Mutex::new(BTreeMap::new()));
@@ -867,7 +885,7 @@ fn cold_sweep(verif_seed: u64, jobs: usize) -> (Value, Option<Value>, Vec<String
         }
         let traces = traces.lock().unwrap().clone();
         // positions: every address of the cold-only part at its first occurrence there
-        let mut work: Vec<(u64, u32, Arc<String>)> = vec![];
+        let mut work: Vec<(u64, u32, Arc<String>, u64)> = vec![];
         for (v, (cold, s0, s1)) in &traces {
             traces_made += 1;
             cold_instr += cold.len() as u64;
@@ -882,7 +900,9 @@ fn cold_sweep(verif_seed: u64, jobs: usize) -> (Value, Option<Value>, Vec<String
                 }
                 let text = Arc::new(serde_json::to_string(cold).unwrap());
                 for k in pos {
-                    work.push((*v, k, text.clone()));
+                    for j in &stops {
+                        work.push((*v, k, text.clone(), *j));
+                    }
                 }
             }
         }
@@ -897,19 +917,19 @@ fn cold_sweep(verif_seed: u64, jobs: usize) -> (Value, Option<Value>, Vec<String
                 if i >= work.len() || violation.lock().unwrap().is_some() {
                     break;
                 }
-                let (v, k, text) = &work[i];
+                let (v, k, text, j) = &work[i];
                 let mut a = base.clone();
-                a.extend(["--visit".to_string(), v.to_string(), "--position".to_string(), k.to_string()]);
+                a.extend(["--visit".to_string(), v.to_string(), "--position".to_string(), k.to_string(), "--intruder-stop".to_string(), j.to_string()]);
                 match run_cold_process(&a, Some(text.to_string()), 300) {
-                    Ok(j) => {
+                    Ok(j_out) => {
                         positions_run.fetch_add(1, Ordering::SeqCst);
-                        positions_hit.fetch_add(j["breakpoints_hit"].as_u64().unwrap_or(0) as usize, Ordering::SeqCst);
-                        if j["harness_error"].is_string() {
-                            errors.lock().unwrap().push(format!("cold run: {}", j["harness_error"]));
-                        } else if !j["violation"].is_null() {
+                        positions_hit.fetch_add(j_out["breakpoints_hit"].as_u64().unwrap_or(0) as usize, Ordering::SeqCst);
+                        if j_out["harness_error"].is_string() {
+                            errors.lock().unwrap().push(format!("cold run: {}", j_out["harness_error"]));
+                        } else if !j_out["violation"].is_null() {
                             let mut g = violation.lock().unwrap();
                             if g.is_none() {
-                                *g = Some(json!({"pair": pair, "visit": v, "position": k, "violation": j["violation"], "run": j["executed_runs"]}));
+                                *g = Some(json!({"pair": pair, "visit": v, "position": k, "intruder_stop": j, "violation": j_out["violation"], "run": j_out["executed_runs"]}));
                             }
                         }
                     }
@@ -1026,7 +1046,7 @@ fn mode_replay(args: &[String]) -> i32 {
                     }
                 };
                 let mut a = base.clone();
-                a.extend(["--position".to_string(), v["position"].as_u64().unwrap_or(1).to_string()]);
+                a.extend(["--position".to_string(), v["position"].as_u64().unwrap_or(1).to_string(), "--intruder-stop".to_string(), v["intruder_stop"].as_u64().unwrap_or(0).to_string()]);
                 return match run_cold_process(&a, Some(t["cold"].to_string()), 300) {
                     Ok(j) if !j["violation"].is_null() => {
                         println!("REPLAY-VIOLATION class={} {}", j["violation"]["class"].as_str().unwrap_or("?"), j["violation"]);
@@ -1926,7 +1946,7 @@ fn mode_run(args: &[String]) -> i32 {
         let path = format!("{}/C10-cold-seed{}.json", replay_dir, verif_seed);
         let file = json!({
             "property": "C10", "engine": "simhist", "kind": "cold", "verif_seed": verif_seed.to_string(),
-            "pair": v["pair"], "visit": v["visit"], "position": v["position"], "run": v["run"], "violation": v["violation"],
+            "pair": v["pair"], "visit": v["visit"], "position": v["position"], "intruder_stop": v["intruder_stop"], "run": v["run"], "violation": v["violation"],
             "explanation": "fresh process, no warm-up: client 0 is parked by a hardware breakpoint at this position of the stretch after this visit (recorded in another fresh process), client 1 runs its whole history, client 0 resumes",
             "how_to_replay": "/verif/check --replay <this file>",
         });
